@@ -136,6 +136,25 @@ func c03PortClass(host string) string {
 	return "other"
 }
 
+// c03PatternClass names the syntactic class of a route's host pattern.
+func c03PatternClass(h string) string {
+	switch {
+	case h == "":
+		return "none"
+	case strings.HasPrefix(h, "[:"):
+		return "ipv6"
+	case strings.Contains(h, "{"):
+		return "brace"
+	case strings.Contains(h, "?"):
+		return "qmark"
+	case strings.Contains(h, "["):
+		return "class"
+	case strings.Contains(h, "*"):
+		return "star"
+	}
+	return "plain"
+}
+
 func c03FindRoute(rs []c03Route, id int) *c03Route {
 	for i := range rs {
 		if rs[i].ID == id {
@@ -148,7 +167,10 @@ func c03FindRoute(rs []c03Route, id int) *c03Route {
 // c03Features classifies a disagreement (matched against KNOWN_FINDINGS.txt).
 func c03Features(x *c03Explicit, got int) map[string]any {
 	f := map[string]any{"kind": x.Kind, "matcher": x.Matcher, "glob": map[bool]string{true: "on", false: "off"}[x.Glob],
-		"host_upper": c03HasUpper(x.Host), "port": c03PortClass(x.Host)}
+		"host_upper": c03HasUpper(x.Host), "port": c03PortClass(x.Host), "req_ipv6": strings.HasPrefix(x.Host, "[")}
+	if w := c03FindRoute(x.Routes, x.Want); w != nil {
+		f["want_pattern"] = c03PatternClass(w.Host)
+	}
 	switch {
 	case x.Want > 0 && got == 0:
 		f["clause"] = "no-route"
